@@ -60,6 +60,8 @@ package parse
 //@   requires sinv(l) && l.mode == modeNormal
 // C19/C01: when the tokeniser goroutine ends, the stream is closed — the parser never waits on it.
 //@   ensures closed: closed(l.tokens)
+// C17: a source that could not be read completely yields exactly one token, an error token
+//@   ensures readfail: old(l.err) != nil ==> sentcount(l.tokens) == old(sentcount(l.tokens)) + 1 && sent(l.tokens, old(sentcount(l.tokens)), "token").tokenType == tokenError
 //@   loop 1 invariant st: l.state != nil ==> sinv(l) && statepre(l.state, l)
 //@   loop 1 invariant done: l.state == nil ==> closed(l.tokens)
 //@   loop 1 invariant mode: l.mode != modeInterpolate
@@ -1038,6 +1040,8 @@ package parse
 //@   ensures same: result == err
 //@   ensures named: errNamed(result, t.Name)
 //@ func parse.newLexer
+// C17: an error met while reading the source is kept (and reported by tokenize before any token)
+//@   asserts readerr: result.err == err
 // C03: the lexer works on exactly the bytes read from the source (nothing is normalised, trimmed or re-encoded)
 //@   asserts input: len(result.input) == len(i) && (forall k :: 0 <= k && k < len(i) ==> result.input[k] == i[k])
 //@   ensures init: result != nil && result.start == 0 && result.pos == 0 && result.line == 1 && result.offset == 0 && result.mode == modeNormal && result.parens == 0
